@@ -204,13 +204,19 @@ func oneFault(ctx context.Context, rep *mon.Reporter, spec *gspec.GraphSpec, r c
 	ctl.Faults = faults
 	// in a third of the runs the injected errors also have io.EOF in their Unwrap chain: still failures
 	ctl.EOFInChain = mon.HashStr(fmt.Sprint(names, para, gspec.Canon(in)))%3 == 0
+	// a panicking converter may panic late, while the caller is a full forwarding buffer behind
+	if h := mon.HashStr(fmt.Sprint("lag", names, para, gspec.Canon(in))); h%2 == 0 && (para == "S" || para == "T") {
+		ctl.LagReader = true
+		ctl.PanicAt = 6 + int(h/2%3)
+		rep.Count("fault_runs_with_lagging_reader", 1)
+	}
 	out, wres, dump := gspec.CallGuarded(gspec.WithCtl(ctx, ctl), r, para, in, 0, -1)
 	rep.AddEvaluations(1)
 	rep.Count("fault_runs", 1)
 	if ctl.EOFInChain {
 		rep.Count("fault_runs_with_io_EOF_in_the_error_chain", 1)
 	}
-	wit := map[string]any{"spec": spec, "input": in, "faults": names, "paradigm": para, "io_EOF_in_chain": ctl.EOFInChain}
+	wit := map[string]any{"spec": spec, "input": in, "faults": names, "paradigm": para, "io_EOF_in_chain": ctl.EOFInChain, "lagging_reader": ctl.LagReader, "panic_at_chunk": ctl.PanicAt}
 	kindSig := kindName(faults[victims[0].Node])
 	if len(victims) > 1 {
 		kindSig = "pair"
